@@ -162,6 +162,24 @@ theorem second_run_touches_nothing (code' : List (Path × String)) (hnd : (keys 
       refine ⟨(hrel p).mpr ⟨ho, hpk⟩, ?_⟩
       rw [after_success_exact fmt fs code marker hnd h p ho, ← hsame, hc]; rfl
 
+/-- After a success whose code map contains the marker (inside the output directory), no later generation is refused. -/
+theorem next_generation_accepted (code' : List (Path × String)) (hnd : (keys code).Nodup)
+    (h : (write fmt fs code marker).outcome = .ok) (hm : marker ∈ keys code) (hmi : isOutside marker = false) :
+    (write fmt (write fmt fs code marker).fs code' marker).outcome = .ok := by
+  refine (write_outcome_cases fmt _ code' marker).2.mpr ?_
+  rintro ⟨_, hn⟩
+  exact hn ((relative_files_after_success fmt fs code marker hnd h marker).mpr ⟨hmi, hm⟩)
+
+/-- Every file is written at most once per generation. -/
+theorem each_file_written_at_most_once (hnd : (keys code).Nodup) : (write fmt fs code marker).written.Nodup :=
+  write_written_nodup fmt fs code marker hnd
+
+/-- Directory pruning removes only directories that existed before the generation (and are empty afterwards):
+a directory that is not among the collected ones — in particular every directory created for a new file — stays. -/
+theorem pruning_only_removes_collected (fs' : FS) (L : List Path) (d : Path) :
+    (d ∈ (pruneDirs fs' L).dirs → d ∈ fs'.dirs) ∧ (d ∈ fs'.dirs → d ∉ L → d ∈ (pruneDirs fs' L).dirs) :=
+  ⟨pruneDirs_subset L fs' d, pruneDirs_keeps L fs' d⟩
+
 /-! ## Histories -/
 
 /-- A directory that holds a file but no marker is protected for ever: whatever generations are attempted, all are
